@@ -334,12 +334,19 @@ def run(ctx):
     cases = gen_cases(ctx, n)
 
     def norm_impl(c, out):
+        # compiled result AND the Go-regexp reference: the model must reproduce both (the second validates
+        # the model's regular-expression semantics and its pattern printer against RE2)
         f = out.split()
-        return f[1] if len(f) >= 4 else "na"
+        return (f[1] + f[2]) if len(f) >= 4 else "na"
 
     def norm_model(c, out):
         f = out.split()
-        return f[1] if len(f) >= 2 and f[0] == "ok" else "na"
+        if len(f) < 3 or f[0] != "ok":
+            return "na"
+        want = ",".join(hx(pp(p)) for p in c["final"])
+        if (f[3] if len(f) > 3 else "") != want:
+            return "text-differs"
+        return f[1] + f[2]
 
     cov = core.differential(ctx, "c13", proof, cases, line_of, oracle, norm_impl=norm_impl, norm_model=norm_model,
                             model_line_of=model_line_of, model_applies=lambda c: c["kind"] == "comm",
